@@ -450,7 +450,7 @@ def _reduce_ext(v, nanaware, is_min, initial=None, name="red"):
     ini = None if initial is None else SF.lift(initial)
     if initial is None:
         # numpy raises ValueError on an empty operand
-        c.oblige("reduce.nonempty", exists_goal(lambda k: v.indom(k)), kind="side")
+        c.oblige("reduce.nonempty", exists_goal(lambda k: v.indom(k), extra=[z3.IntVal(0), v.n - 1]), kind="side")
     ew = v.at(w)
     ewn = v.at(wn)
     if not nanaware:
@@ -728,3 +728,65 @@ class Concat:
 
     def __getitem__(self, k):
         raise Unsupported("indexing into a symbolic concatenation")
+
+
+
+# ---- minimal 2-D arrays ------------------------------------------------------------------------------------------------
+class SM2:
+    """Dense 2-D float array of symbolic shape: element reads/stores, column/row views (only what Interpolation needs)."""
+    _vcx_symbolic = True
+    _vcx_asarray = True
+    __array_ufunc__ = None
+
+    def __init__(self, nr, nc, at):
+        self.nr, self.nc, self.at = _t(nr), _t(nc), at
+        self.version = 0
+
+    @property
+    def shape(self):
+        return (SI(self.nr), SI(self.nc))
+
+    def _ix(self, k, n):
+        if isinstance(k, SI):
+            return k.t
+        if isinstance(k, int):
+            return z3.IntVal(k) if k >= 0 else n + k
+        return None
+
+    def __getitem__(self, key):
+        if not (isinstance(key, tuple) and len(key) == 2):
+            raise Unsupported("2-D array indexed with a single index")
+        a, b = key
+        i, j = self._ix(a, self.nr), self._ix(b, self.nc)
+        at = self.at
+        if i is not None and j is not None:
+            cur().oblige("index.in_bounds", z3.And(0 <= i, i < self.nr, 0 <= j, j < self.nc), kind="side")
+            return at(i, j)
+        if isinstance(a, slice) and a == slice(None) and j is not None:
+            cur().oblige("index.in_bounds", z3.And(0 <= j, j < self.nc), kind="side")
+            return SV(self.nr, lambda r: at(r, j))
+        if isinstance(b, slice) and b == slice(None) and i is not None:
+            cur().oblige("index.in_bounds", z3.And(0 <= i, i < self.nr), kind="side")
+            return SV(self.nc, lambda q: at(i, q))
+        raise Unsupported("2-D indexing pattern not modelled")
+
+    def __setitem__(self, key, val):
+        if not (isinstance(key, tuple) and len(key) == 2):
+            raise Unsupported("2-D store with a single index")
+        a, b = key
+        i, j = self._ix(a, self.nr), self._ix(b, self.nc)
+        old = self.at
+        if i is not None and j is not None:
+            cur().oblige("index.in_bounds", z3.And(0 <= i, i < self.nr, 0 <= j, j < self.nc), kind="side")
+            v = SF.lift(val)
+            self.at = lambda r, q: ite(z3.And(r == i, q == j), v, old(r, q))
+            self.version += 1
+            return
+        if isinstance(a, slice) and a == slice(None) and j is not None and isinstance(val, SV):
+            cur().oblige("index.in_bounds", z3.And(0 <= j, j < self.nc), kind="side")
+            _align_n(SV(self.nr, None), val)
+            va = val.at
+            self.at = lambda r, q: ite(q == j, va(r), old(r, q))
+            self.version += 1
+            return
+        raise Unsupported("2-D store pattern not modelled")
